@@ -4,7 +4,7 @@ import json, os, subprocess, hashlib, glob, sys, time
 VERIF = os.path.dirname(os.path.dirname(os.path.abspath(__file__)))
 REPO = os.environ.get('XSG_REPO', '/repo')
 BUILD = os.path.join(VERIF, 'build')
-ENV = dict(os.environ, CARGO_NET_OFFLINE='true')
+ENV = dict(os.environ, CARGO_NET_OFFLINE='true', XSG_REPO=REPO)
 
 def src_files():
     out = []
@@ -50,11 +50,21 @@ def run(cmd, cwd=None, timeout=1200):
     p = subprocess.run(cmd, cwd=cwd, env=ENV, stdout=subprocess.PIPE, stderr=subprocess.STDOUT, timeout=timeout)
     return p.returncode, p.stdout.decode('utf-8', 'replace')
 
+def alt_suffix():
+    return '' if REPO == '/repo' else '-' + hashlib.sha1(REPO.encode()).hexdigest()[:8]
 def build_tool(name, profile='release'):
-    td = os.path.join(BUILD, name)
+    td = os.path.join(BUILD, name + (alt_suffix() if name == 'replay' else ''))
     args = ['cargo', 'build', '--offline', '--quiet']
     if profile == 'release': args.append('--release')
-    rc, out = run(args + ['--target-dir', td], cwd=os.path.join(VERIF, 'tools', name))
+    src = os.path.join(VERIF, 'tools', name)
+    if name == 'replay' and REPO != '/repo':
+        # self-test mode: a copy of the tool crate whose path dependency points at the scratch copy of the repository
+        import shutil
+        src = os.path.join(BUILD, 'replay-src' + alt_suffix())
+        shutil.rmtree(src, ignore_errors=True); shutil.copytree(os.path.join(VERIF, 'tools', 'replay'), src)
+        t = open(os.path.join(src, 'Cargo.toml')).read().replace('path = "/repo"', 'path = "%s"' % REPO)
+        open(os.path.join(src, 'Cargo.toml'), 'w').write(t)
+    rc, out = run(args + ['--target-dir', td], cwd=src)
     if rc != 0: raise RuntimeError('building tools/%s failed:\n%s' % (name, out[-3000:]))
     return os.path.join(td, 'release' if profile == 'release' else 'debug', name)
 
@@ -78,7 +88,7 @@ class Replay:
     """persistent tools/replay process (one JSON request per line)"""
     def __init__(self, profile='release', rebuild=True):
         self.profile = profile
-        self.exe = build_tool('replay', profile) if rebuild else os.path.join(BUILD, 'replay', 'release' if profile == 'release' else 'debug', 'replay')
+        self.exe = build_tool('replay', profile) if rebuild else os.path.join(BUILD, 'replay' + alt_suffix(), 'release' if profile == 'release' else 'debug', 'replay')
         self.p = None
         want = fnv_hash()
         got = self.ask({'op': 'srchash'}).get('srchash')
@@ -86,16 +96,23 @@ class Replay:
             # stale binary (mtime granularity): force a rebuild once
             self.close()
             os.utime(os.path.join(VERIF, 'tools', 'replay', 'build.rs'))
+            if REPO != '/repo': os.utime(os.path.join(BUILD, 'replay-src' + alt_suffix(), 'build.rs'))
             self.exe = build_tool('replay', profile)
             got = self.ask({'op': 'srchash'}).get('srchash')
             if got != want: raise RuntimeError('replay binary is stale: built from %s, sources are %s' % (got, want))
         self.srchash = got
     def start(self):
         self.p = subprocess.Popen([self.exe], stdin=subprocess.PIPE, stdout=subprocess.PIPE, stderr=subprocess.DEVNULL)
-    def ask(self, req):
+    def ask(self, req, timeout=60):
+        import select
         if self.p is None or self.p.poll() is not None: self.start()
         try:
             self.p.stdin.write((json.dumps(req) + '\n').encode()); self.p.stdin.flush()
+            r, _, _ = select.select([self.p.stdout], [], [], timeout)
+            if not r:
+                # the native library does not come back: an observable outcome (C07: "failing to terminate"), reported like a crash
+                self.p.kill(); self.p.wait(); self.p = None
+                return {'crash': 'timeout', 'timeout_s': timeout}
             line = self.p.stdout.readline()
         except BrokenPipeError:
             line = b''
